@@ -42,6 +42,7 @@ SHARDS.update({
 # Solver-strategy flags per contract file (no semantic content).
 MODULE_FLAGS = {
     "contracts.C15_vterm": {"qf_forall_only": True},
+    "contracts.C15_parser": {"qf_forall_only": True},
 }
 
 SHARDS.update({
